@@ -81,6 +81,8 @@ def run(ctx):
             opts = {"max_units": 5, "min_units": 2, "cross_unit_chains": k % 2 == 0}
             if k % 4 == 3:
                 opts["max_chain"] = 6
+            if k % 3 == 1:
+                opts.update({"cu_imports": 0.4, "implicit_consts": 0.4})
             desc, path = fs.make(rng, **opts)
             i, ne, _ = import_stats(desc)
             stats["imports"] += i
